@@ -28,6 +28,8 @@ def scenarios(tier):
     if not q:
         out.append(dict(name="roms-N6-P1-R2-RK4", fn="run", params=dict(N=6, P=1, R=2, adv="RK4", roms=True), cost=90))
     out.append(dict(name="leaves-grid-N6-P1-R1-EF", fn="run", params=dict(N=6, P=1, R=1, adv="EF", fast=True), cost=30))
+    for tv in ("placeholder", "explicit"):
+        out.append(dict(name=f"timevar-{tv}-N6-P1-R2-EF", fn="run", params=dict(N=6, P=1, R=2, adv="EF", timevar=tv), cost=30))
     for ss in (0, 1):
         out.append(dict(name=f"settled-N6-P1-R2-EF-s{ss}", fn="run", params=dict(N=6, P=1, R=2, adv="EF", settle=True, settle_step=ss), cost=30))
     out.append(dict(name="discrete-offgrid-N6-P1-R1-EF", fn="run", params=dict(N=6, P=1, R=1, adv="EF", discrete_off=250), cost=30))
@@ -48,13 +50,23 @@ def _config(W, tmp, sub, p, x0, u, temp, w0, kill, warm=None, first_file=None):
     if p.get("settle"):
         ivars["active"] = ovar("i1")  # the activity flag is saved so that a restart can restore it
     pvars = dict(w0=ovar("f8"))
+    svars = dict(w0=float)
+    wvars = ["age", "temp", "w0"]
+    REF = T0 - 86400
+    if p.get("timevar"):
+        # a time-typed particle variable, units given with the placeholder or spelled out (the reference time is then explicit)
+        units = "seconds since reference_time" if p["timevar"] == "placeholder" else "seconds since 2000-01-03 00:00:00"
+        pvars["release_time"] = ovar("f8", units=units, long_name="particle release time")
+        svars["release_time"] = "time"
+        wvars.append("release_time")
     cfg = base_config(
         W, start=T0, stop=T0 + (-1 if p.get("rev") else 1) * N * DT, dt=DT, rev=bool(p.get("rev")), release_file=tmp / "r.rls", u=u, temp=temp, advection=p["adv"],
-        state=dict(instance_variables=dict(age=float, temp=float), particle_variables=dict(w0=float), default_values=dict(age=0, temp=0)),
+        state=dict(instance_variables=dict(age=float, temp=float), particle_variables=svars, default_values=dict(age=0, temp=0)),
+        reference=(REF if p.get("timevar") else None),
         release=(dict(continuous=True, release_frequency=2 * DT) if not p.get("discrete_off") else dict()),
         ibm=dict(kill=kill, age=True, kill_t0=W.dt(T0), settle=({p["settle_step"]: {0: True}} if p.get("settle") else None)),  # deaths are tied to absolute time, not to the run's own step counter
         output=dict(filename=str(sub / (first_file or "out.nc")), output_period=P * DT, instance_variables=ivars, particle_variables=pvars, numrec=R),
-        warm_start=(dict(filename=str(warm), variables=["age", "temp", "w0"]) if warm else {}),
+        warm_start=(dict(filename=str(warm), variables=wvars) if warm else {}),
     )
     if p.get("roms"):
         # real ROMS grid + forcing (level- and frame-dependent currents, scalar field): the forcing is rebuilt at the restart time
@@ -141,6 +153,13 @@ def run(W, p):
         W.prove(W.all(conds), "records-equal", dict(file=name, restart_from=filesA[k], N=N, P=P, R=R, killstep=kstep, killpid=kpid))
         pa, pb = va.get("w0", []), vb.get("w0", [])
         W.prove(W.all([len(pb) >= len(pa)] + [_eq(W, p_, q_) for p_, q_ in zip(pa, pb)]), "particle-vars-equal", dict(file=name, restart_from=filesA[k], lenA=len(pa), lenB=len(pb), N=N, P=P, R=R, killstep=kstep, killpid=kpid))
+        if p.get("timevar"):
+            # decoded release instants (value + the reference named by the variable's own units attribute)
+            ua, ub = a["atts"].get("release_time", {}).get("units"), b["atts"].get("release_time", {}).get("units")
+            ta, tb = va.get("release_time", []), vb.get("release_time", [])
+            ok = ua is not None and ub is not None and len(tb) >= len(ta)
+            W.prove(W.all([_eq(W, x_ + _ref(W, ua), y_ + _ref(W, ub)) for x_, y_ in zip(ta, tb)]) if ok else False, "particle-vars-equal",
+                    dict(file=name, restart_from=filesA[k], variable="release_time", units_uninterrupted=ua, units_restarted=ub, lenA=len(ta), lenB=len(tb)))
     return (k, tuple(extra))
 
 
